@@ -1,0 +1,103 @@
+//! Verification hooks, compiled only with the `verif` cargo feature.
+//!
+//! These give an external harness (a) a way to run one merge pass on demand (merge is otherwise
+//! private and only driven by a timer) and (b) a read-only snapshot of the private index and
+//! per-file accounting. Nothing here changes the behaviour of the storage engine.
+
+use super::{Error, Handle};
+
+/// One entry of the in-memory index.
+#[derive(Debug, Clone, PartialEq, Eq)]
+pub struct VerifKeyDirEntry {
+    /// The key.
+    pub key: Vec<u8>,
+    /// ID of the data file holding the entry.
+    pub fileid: u64,
+    /// Position of the entry in that file.
+    pub pos: u64,
+    /// Length of the entry on disk.
+    pub len: u64,
+    /// Timestamp recorded with the entry.
+    pub tstamp: i64,
+}
+
+/// Per-file accounting of one data file.
+#[derive(Debug, Clone, PartialEq, Eq)]
+pub struct VerifFileStats {
+    /// ID of the data file.
+    pub fileid: u64,
+    /// Number of live entries.
+    pub live_keys: u64,
+    /// Number of dead entries.
+    pub dead_keys: u64,
+    /// Number of bytes occupied by dead entries.
+    pub dead_bytes: u64,
+}
+
+/// A read-only snapshot of the private state of a storage instance.
+#[derive(Debug, Clone)]
+pub struct VerifDump {
+    /// The index, in no particular order.
+    pub keydir: Vec<VerifKeyDirEntry>,
+    /// The per-file accounting, in no particular order.
+    pub stats: Vec<VerifFileStats>,
+    /// ID of the active data file.
+    pub active_fileid: u64,
+    /// Number of bytes written to the active data file.
+    pub written_bytes: u64,
+    /// Capacity of the readers queue.
+    pub readers_capacity: usize,
+    /// Number of readers currently in the queue.
+    pub readers_available: usize,
+    /// Whether the storage was closed.
+    pub closed: bool,
+}
+
+impl Handle {
+    /// Run one merge pass now, exactly as the background task would.
+    pub fn verif_merge(&self) -> Result<(), Error> {
+        self.merge()
+    }
+
+    /// Force the active file to disk now, exactly as the background task would.
+    pub fn verif_sync(&self) -> Result<(), Error> {
+        self.sync()
+    }
+
+    /// Take a snapshot of the index and the accounting. Blocks while a write or merge is running.
+    pub fn verif_dump(&self) -> VerifDump {
+        let writer = self.writer.lock();
+        let keydir = self
+            .ctx
+            .keydir
+            .iter()
+            .map(|e| VerifKeyDirEntry {
+                key: e.key().to_vec(),
+                fileid: e.fileid,
+                pos: e.pos,
+                len: e.len,
+                tstamp: e.tstamp,
+            })
+            .collect();
+        let stats = self
+            .ctx
+            .stats
+            .iter()
+            .map(|e| VerifFileStats {
+                fileid: *e.key(),
+                live_keys: e.live_keys,
+                dead_keys: e.dead_keys,
+                dead_bytes: e.dead_bytes,
+            })
+            .collect();
+        VerifDump {
+            keydir,
+            stats,
+            active_fileid: writer.active_fileid,
+            written_bytes: writer.written_bytes,
+            readers_capacity: self.readers.capacity(),
+            readers_available: self.readers.len(),
+            closed: self.ctx.closed.load(),
+        }
+    }
+}
